@@ -26,7 +26,8 @@ CONSTANTS SeqM,        \* 256 in the protocol; small in the bounded model
 
 (* priority classes of the property: keep-alives and counter reads first, *)
 (* packet-send commands last                                               *)
-High == {"nop", "readCounters", "readAndClearCounters"}
+(* the keep-alive is what the watchdog issues: nop (version 4), the counter reads, and the free-buffer read getValue *)
+High == {"nop", "readCounters", "readAndClearCounters", "getValue"}
 Low  == {"sendUnicast", "sendMulticast", "sendBroadcast"}
 Prio(cmd) == IF cmd \in High THEN 2 ELSE IF cmd \in Low THEN 0 ELSE 1
 
